@@ -1,1 +1,91 @@
 //! Verification hooks: `codec` (thin pass-through wrappers; feature `verif-hooks` only).
+//!
+//! Exposes the crate-private relay frame codec functions unchanged, and builds the real
+//! client connection / server relayed stream on top of an already established TCP stream
+//! (no HTTP upgrade, no handshake), configured the way `ClientBuilder::connect` and the
+//! server's `accept` configure them.
+
+use bytes::{Bytes, BytesMut};
+
+use crate::{
+    KeyCache,
+    http::ProtocolVersion,
+    protos::relay::{ClientToRelayMsg, Error, RelayToClientMsg},
+};
+
+pub fn c2r_to_bytes(msg: &ClientToRelayMsg) -> BytesMut {
+    msg.to_bytes()
+}
+
+pub fn c2r_encoded_len(msg: &ClientToRelayMsg) -> usize {
+    msg.encoded_len()
+}
+
+#[cfg(feature = "server")]
+#[allow(clippy::result_large_err)]
+pub fn c2r_from_bytes(content: Bytes, cache: &KeyCache) -> Result<ClientToRelayMsg, Error> {
+    ClientToRelayMsg::from_bytes(content, cache)
+}
+
+#[cfg(feature = "server")]
+pub fn r2c_to_bytes(msg: &RelayToClientMsg) -> BytesMut {
+    msg.to_bytes()
+}
+
+#[cfg(feature = "server")]
+pub fn r2c_encoded_len(msg: &RelayToClientMsg) -> usize {
+    msg.encoded_len()
+}
+
+#[allow(clippy::result_large_err)]
+pub fn r2c_from_bytes(
+    content: Bytes,
+    cache: &KeyCache,
+    protocol_version: ProtocolVersion,
+) -> Result<RelayToClientMsg, Error> {
+    RelayToClientMsg::from_bytes(content, cache, protocol_version)
+}
+
+/// The real client connection object on an established TCP stream (websocket role: client),
+/// with the websocket limits/config used by `ClientBuilder::connect`.
+#[cfg(not(wasm_browser))]
+pub fn client_over_tcp(
+    tcp: tokio::net::TcpStream,
+    protocol_version: ProtocolVersion,
+    key_cache: KeyCache,
+) -> crate::client::Client {
+    use crate::{
+        client::{
+            conn::Conn,
+            streams::{MaybeTlsStream, ProxyStream},
+        },
+        protos::{relay::MAX_FRAME_SIZE, streams::WsBytesFramed},
+    };
+    let io = tokio_websockets::ClientBuilder::new()
+        .limits(tokio_websockets::Limits::default().max_payload_len(Some(MAX_FRAME_SIZE)))
+        .config(tokio_websockets::Config::default().flush_threshold(usize::MAX))
+        .take_over(MaybeTlsStream::Raw(ProxyStream::Raw(tcp)));
+    crate::client::Client::verif_from_conn(Conn {
+        conn: WsBytesFramed { io },
+        key_cache,
+        protocol_version,
+    })
+}
+
+/// The real server-side relayed stream on an established TCP stream (websocket role: server),
+/// with the websocket limits used by the server's `accept`.
+#[cfg(feature = "server")]
+pub fn server_stream_over_tcp(
+    tcp: tokio::net::TcpStream,
+    key_cache: KeyCache,
+) -> crate::server::streams::RelayedStream<
+    impl n0_future::Stream<Item = Result<Bytes, crate::protos::streams::StreamError>>
+    + n0_future::Sink<Bytes, Error = crate::protos::streams::StreamError>
+    + Unpin,
+> {
+    use crate::protos::{relay::MAX_FRAME_SIZE, streams::WsBytesFramed};
+    let io = tokio_websockets::ServerBuilder::new()
+        .limits(tokio_websockets::Limits::default().max_payload_len(Some(MAX_FRAME_SIZE)))
+        .serve(tcp);
+    crate::server::streams::RelayedStream::new(WsBytesFramed { io }, key_cache)
+}
